@@ -132,7 +132,10 @@ class LubaGateway(SerialGateway):
             if oc[0] == "value":
                 self.emit(RW.luba_event_received([oc[1]]), "answer")
             elif oc[0] == "error":
-                self.emit(RW.luba_event((2 << 6) | 63, []), "answer")
+                # the firmware has two reports for a garbled backward frame ("framing error" 63, "only start/stop bit
+                # combination" 62); either may carry whatever the receiver had collected in the place of a frame
+                sel = oc[1] if len(oc) > 1 else 0
+                self.emit(RW.luba_event((2 << 6) | (63 if sel & 1 == 0 else 62), [sel] if sel & 3 in (1, 2) else []), "answer")
         else:
             self.wire.append({"kind": "other", "cmd": cmd, "t": t})
 
